@@ -7,3 +7,4 @@ git -C $WT checkout -q -- . ; git -C $WT apply /verif/seeded/$S/patch.diff || { 
 cd /verif && ./check $C --tier quick --no-evidence --repo $WT --jobs 6 "$@" > /tmp/seedlog/$S.$C.re.log 2>&1; rc=$?
 git -C $WT checkout -q -- .
 echo "== $S vs $C $*: exit=$rc"; grep -E "^VIOLATION|^KNOWN|^INCONCLUSIVE" /tmp/seedlog/$S.$C.re.log | cut -c1-230 | head -5
+rm -rf /verif/evidence/replay   # counterexamples of patched trees are not evidence
